@@ -818,6 +818,25 @@ func opDlp(re bool, data []byte) string {
 				for i, t := range decoded {
 					lastOf[t] = i
 				}
+				// The parser owns ONE object per type.  When the run ended with a decode error, the failing
+				// decode was attempted INTO the object of its type (LLC.DecodeFromBytes assigns five fields
+				// before its second length check), so that object no longer describes an earlier layer of
+				// the same type (LLC / SNAP type 0 / LLC): it is not compared.
+				if code == 1 && len(decoded) > 0 {
+					var ft gopacket.LayerType = -1
+					switch decoded[len(decoded)-1] {
+					case layers.LayerTypeLLC:
+						ft = pLLC.NextLayerType()
+					case layers.LayerTypeSNAP:
+						ft = pSNAP.NextLayerType()
+					case layers.LayerTypeSTP:
+						ft = pSTP.NextLayerType()
+					}
+					if _, ok := lastOf[ft]; ok {
+						lastOf[ft] = -1
+						lib.Stat("dlp:failed-redecode-of-same-type")
+					}
+				}
 				for i, t := range decoded {
 					if i >= len(pl) || pl[i].LayerType() != t {
 						lib.Finding("C05", "lllc:dlp-differs", "parser run is not a prefix of the packet's layers")
